@@ -35,10 +35,16 @@ def one_edits(S: bytes, subs, ins, spans=(), start: int = 0, positions=None):
             yield ("trunc", i, e), S[:i] + S[e:]
 
 
-def edits_upto(S: bytes, k: int, subs, ins, spans=(), positions=None):
-    """All distinct streams within <= k edits of S (k in 0..2), each once, with the edit list."""
+def edits_upto(S: bytes, k: int, subs, ins, spans=(), positions=None, shard=(0, 1)):
+    """All distinct streams within <= k edits of S (k in 0..2), each once, with the edit list.
+
+    shard=(i, n) splits the work over n tasks: shard 0 yields the 0- and 1-edit streams, and the two-edit
+    streams that extend the j-th one-edit stream are yielded by shard j % n (a two-edit stream reachable from
+    first edits in different shards is then yielded by each of them - duplicates only cost time)."""
+    si, sn = shard
     seen = {S}
-    yield (), S
+    if si == 0:
+        yield (), S
     if k < 1:
         return
     level1 = []
@@ -46,10 +52,13 @@ def edits_upto(S: bytes, k: int, subs, ins, spans=(), positions=None):
         if T not in seen:
             seen.add(T)
             level1.append((d, T))
-            yield (d,), T
+            if si == 0:
+                yield (d,), T
     if k < 2:
         return
-    for d1, T in level1:
+    for j, (d1, T) in enumerate(level1):
+        if j % sn != si:
+            continue
         # second edit at or after the first one's position (edits commute otherwise); spans are not
         # recomputed for the edited stream, so second edits are substitutions/deletions/insertions only
         for d2, U in one_edits(T, subs, ins, (), d1[1], positions):
